@@ -22,7 +22,7 @@ _TRUST = ["coinswap (liquidity-token validation) is used as set up by the harnes
 PROPS["C05"] = dict(
     driver="farm",
     props_file="Props/C05.v",
-    coq_targets=["Farm/Check.vo"],
+    coq_targets=["Farm/Check.vo", "Base/DecCheck.vo"],   # DecCheck: the shared arith stream attached to C05 by props.py
     check_module="Farm.Check",
     check_fn="check_case_C05",
     streams=[dict(name="main", quick=122, thorough=4000), dict(name="manypools", quick=6, thorough=160)],
